@@ -17,6 +17,7 @@
 */
 
 #include "cpca.h"
+#include "verifhooks.h"
 #include "memwrapper.h"
 #include <stdio.h>
 #include <math.h>
@@ -233,6 +234,7 @@ void CPCA(tensor *x, int scaling, size_t npc, CPCAMODEL *model)
     }
 
     while(1){ /* loop until convergence of t */
+      LIBSCI_VERIF_TICK(2);
       for(k = 0; k < Eb->order; k++){
         NewDVector(&p_b, Eb->m[k]->col);
        /*
